@@ -180,6 +180,10 @@ def exec_case(case):
     kind = "pn" if name in ("SparseLogisticRegression", "CoxEstimator", "SqrtLasso") else "cd"
     scale = 1.0 + float(np.abs(prob["X"]).sum()) * (1.0 + float(np.abs(prob["y"]).max()))
     converged = sc is not None and sc <= tol
+    lbfgs = name == "CoxEstimator" and kw.get("l1_ratio") == 0.0      # scipy's L-BFGS-B also stops on its relative-decrease test (factr)
+    if sc is not None and not converged and name != "GLE" and prob["penalty"]["name"] in RP.CONVEX and not lbfgs:
+        # liveness: a convex problem with <= 6 samples and <= 5 features is solved to 1e-8 well within max_iter=100 x max_epochs=2000
+        v.append(("does_not_converge_within_generous_budget", dict(stop=float(sc), coef=np.asarray(w).tolist()), f"stop_crit_ <= {tol}"))
     if converged and name != "SqrtLasso":
         viol, parts = RC.violation(prob, w, "subdiff", kind)
         if viol > tol * (1 + 1e-6) + 1e-9 * scale:
